@@ -207,6 +207,10 @@ type Result struct {
 	// MaxFailOff/Expected describe the farthest failure (valid when !Matched).
 	// Reentry: a rule was re-entered at an offset where it was active.
 	Reentry string
+	// DivergeMemo: the run diverges in a repetition whose body matched the
+	// empty string, at a place where the runtime's expression table is in use
+	// under Memoize (finding D11).
+	DivergeMemo bool
 	Final   string // final state store (canonical)
 	Caught  int    // throws for which a listed handler was run
 }
@@ -254,6 +258,7 @@ type Interp struct {
 	an       *Analysis
 	memo     map[memoKey]memoVal
 	ruleMemo map[string]memoVal
+	divergeMemo bool
 	// leaderMemo: finished results of left-recursive leaders (memo model)
 	leaderMemo map[string]memoVal
 }
@@ -286,6 +291,7 @@ func Run(g *Grammar, in []byte, script map[int]*rtapi.Block, o Options) (res *Re
 		res.Evals = ip.evals
 		res.Backtracked = ip.backtr
 		res.Reentry = ip.reentry
+		res.DivergeMemo = ip.divergeMemo
 		res.Final = ip.st.canon()
 		res.Caught = ip.caught
 		for o := range ip.advanced {
@@ -748,7 +754,10 @@ func (ip *Interp) evalInner(e *Expr, pos int, env map[string]any) (bool, int, an
 				break
 			}
 			if end == p {
-				// an iteration that consumes nothing repeats forever
+				// an iteration that consumes nothing repeats forever; with Memoize the runtime
+				// answers the following iterations from its expression table unless the body is
+				// a labeled expression or the rule belongs to a left-recursive cycle
+				ip.divergeMemo = e.Kids[0].K != KLabel && !ip.inLRRule()
 				panic(&refPanic{kind: "diverge", why: "empty iteration"})
 			}
 			p = end
